@@ -4,12 +4,9 @@
 static char descr[2048];
 void harness (void)
 {
-  int gi = (int) sx_param ("grammar", 0), len = (int) sx_param ("len", 2), first = (int) sx_param ("first", -1);
   int strict = (int) sx_param ("strict", 1), via_text = (int) sx_param ("via_text", 0);
   int ok, conf; struct pconf c; struct pres r;
-  g_select (&catalogue[gi]);
-  p_input_all (len, first);
-  p_to_seq ();
+  p_setup ();
   ok = o_sentence ();
   conf = sx_choice ("conf", 24);
   c.la = conf % 3; c.one = (conf / 3) % 2; c.cost = (conf / 6) % 2; c.rec = (conf / 12) % 2; c.match = 0; c.use_free = 0;
